@@ -263,6 +263,87 @@ let run_compl _u line =
   | ["unesc"; s] -> fmt_str (unescape (n_of_int 92) (parse_str s))
   | _ -> failwith "bad compl case"
 
+(* ---------- stream: linebuf (C03/C04) ---------- *)
+let nat s = nat_of_int (int_of_string s)
+let parse_word = function "b" -> WBig | "e" -> WEmacs | _ -> WVi
+let parse_at = function "s" -> AtStart | "b" -> AtBeforeEnd | _ -> AtAfterEnd
+let parse_cs t =
+  match String.split_on_char ':' t with
+  | [k; c] -> let c = n_of_int (int_of_string ("0x" ^ c)) in
+    (match k with "f" -> CsForward c | "F" -> CsForwardBefore c | "b" -> CsBackward c | _ -> CsBackwardAfter c)
+  | _ -> failwith "cs"
+let parse_mvt t =
+  match String.split_on_char '/' t with
+  | ["wl"] -> MWholeLine | ["bol"] -> MBeginningOfLine | ["eol"] -> MEndOfLine
+  | ["bw"; n; w] -> MBackwardWord (nat n, parse_word w)
+  | ["fw"; n; a; w] -> MForwardWord (nat n, parse_at a, parse_word w)
+  | ["cs"; n; c] -> MViCharSearch (nat n, parse_cs c)
+  | ["vfp"] -> MViFirstPrint
+  | ["bc"; n] -> MBackwardChar (nat n) | ["fc"; n] -> MForwardChar (nat n)
+  | ["lu"; n] -> MLineUp (nat n) | ["ld"; n] -> MLineDown (nat n)
+  | ["wb"] -> MWholeBuffer | ["bob"] -> MBeginningOfBuffer | ["eob"] -> MEndOfBuffer
+  | _ -> failwith ("movement " ^ t)
+
+let parse_lbop (t : string list) : lbop =
+  match t with
+  | ["ins"; c; n] -> OpIns (n_of_int (int_of_string ("0x" ^ c)), nat n)
+  | ["yank"; s; n] -> OpYank (parse_str s, nat n)
+  | ["yankpop"; k; s] -> OpYankPop (nat k, parse_str s)
+  | ["mb"; n] -> OpMoveBackward (nat n) | ["mf"; n] -> OpMoveForward (nat n)
+  | ["bs0"] -> OpBufferStart | ["be"] -> OpBufferEnd | ["home"] -> OpHome | ["end"] -> OpEnd
+  | ["eoi"] -> OpIsEndOfInput
+  | ["del"; n] -> OpDelete (nat n) | ["bsp"; n] -> OpBackspace (nat n)
+  | ["kl"] -> OpKillLine | ["kb"] -> OpKillBuffer | ["dl"] -> OpDiscardLine | ["db"] -> OpDiscardBuffer
+  | ["tc"] -> OpTransposeChars
+  | ["mpw"; w; n] -> OpPrevWord (parse_word w, nat n)
+  | ["dpw"; w; n] -> OpDeletePrevWord (parse_word w, nat n)
+  | ["mnw"; a; w; n] -> OpNextWord (parse_at a, parse_word w, nat n)
+  | ["mto"; c; n] -> OpMoveTo (parse_cs c, nat n)
+  | ["dw"; a; w; n] -> OpDeleteWord (parse_at a, parse_word w, nat n)
+  | ["dto"; c; n] -> OpDeleteTo (parse_cs c, nat n)
+  | ["ew"; a] -> OpEditWord (match a with "c" -> Capitalize | "l" -> Lowercase | _ -> Uppercase)
+  | ["tw"; n] -> OpTransposeWords (nat n)
+  | ["repl"; a; b; s] -> OpReplace (nat a, nat b, parse_str s)
+  | ["istr"; i; s] -> OpInsertStr (nat i, parse_str s)
+  | ["drange"; a; b] -> OpDeleteRange (nat a, nat b)
+  | ["copy"; m] -> OpCopy (parse_mvt m)
+  | ["kill"; m] -> OpKill (parse_mvt m)
+  | ["indent"; m; a; d] -> OpIndent (parse_mvt m, nat a, parse_bool d)
+  | ["upd"; s; p] -> OpUpdate (parse_str s, nat p)
+  | ["setpos"; p] -> OpSetPos (nat p)
+  | ["npos"; n] -> OpNextPos (nat n)
+  | _ -> failwith ("bad linebuf op: " ^ String.concat " " t)
+
+let fmt_event = function
+  | EInsertChar (i, c) -> Printf.sprintf "ic:%d:%x" (int_of_nat i) (int_of_n c)
+  | EInsertStr (i, s) -> Printf.sprintf "is:%d:%s" (int_of_nat i) (fmt_str s)
+  | EDelete (i, s, d) -> Printf.sprintf "d:%d:%s:%s" (int_of_nat i) (fmt_str s) (match d with DForward -> "f" | DBackward -> "b")
+  | EReplace (i, o, n) -> Printf.sprintf "rp:%d:%s:%s" (int_of_nat i) (fmt_str o) (fmt_str n)
+  | EStartKill -> "sk" | EStopKill -> "ek"
+
+let fmt_lbret = function
+  | RUnit -> "u"
+  | RBool b -> if b then "1" else "0"
+  | ROptBool None -> "none" | ROptBool (Some true) -> "some1" | ROptBool (Some false) -> "some0"
+  | ROptStr None -> "none" | ROptStr (Some s) -> "some:" ^ fmt_str s
+  | ROptNat None -> "none" | ROptNat (Some n) -> Printf.sprintf "some:%d" (int_of_nat n)
+
+let run_linebuf u line =
+  match String.split_on_char ';' line with
+  | [] -> ""
+  | head :: ops ->
+    (match words head with
+     | [cap; b; p] ->
+       let lb0 = { buf = parse_str b; pos = nat p; cap = nat cap; grow = false } in
+       let ops = List.filter (fun o -> words o <> []) ops in
+       let rs = lb_run u (useg u) (List.map (fun o -> parse_lbop (words o)) ops) lb0 in
+       String.concat " ; " (List.map (function
+           | None -> "panic"
+           | Some ((r, b), ev) ->
+             Printf.sprintf "r=%s b=%s p=%d e=%s" (fmt_lbret r) (fmt_str b.buf) (int_of_nat b.pos)
+               (if ev = [] then "_" else String.concat "," (List.map fmt_event ev))) rs)
+     | _ -> failwith "bad linebuf head")
+
 (* ---------- main ---------- *)
 let () =
   let stream = Sys.argv.(1) in
@@ -276,6 +357,7 @@ let () =
     | "seg" -> run_seg u
     | "direct" -> run_direct u
     | "compl" -> run_compl u
+    | "linebuf" -> run_linebuf u
     | s -> failwith ("unknown stream " ^ s) in
   (try
      while true do
